@@ -161,6 +161,33 @@ func main() {
 			})
 			e.Strs("parseFilterSteps", steps, "search.tryParseFieldsFilter: statements in source order (logging dropped)")
 		}
+		// ---- the proxy hands the request's field names over unchanged (Fetch handler, and the request to the store)
+		if h, err := r.Load("proxyapi/grpc_fetch.go"); err != nil {
+			e.Missing("proxyapi/grpc_fetch.go", err)
+		} else if fd := h.Func("grpcV1", "Fetch"); fd == nil {
+			e.Missing("proxyFetchFilterArg", "proxyapi Fetch not found")
+		} else {
+			var lits []string
+			ast.Inspect(fd.Body, func(n ast.Node) bool {
+				if kv, ok := n.(*ast.KeyValueExpr); ok && h.Render(kv.Key) == "FieldsFilter" {
+					lits = append(lits, h.Render(kv.Value))
+				}
+				return true
+			})
+			e.Strs("proxyFetchFilterArg", lits, "proxyapi.grpcV1.Fetch: the FieldsFilter handed to search.Ingestor.Documents")
+		}
+		if fd := g.Func("Ingestor", "makeFetchReq"); fd == nil {
+			e.Missing("makeFetchReqFilter", "makeFetchReq not found")
+		} else {
+			var lits []string
+			ast.Inspect(fd.Body, func(n ast.Node) bool {
+				if kv, ok := n.(*ast.KeyValueExpr); ok && g.Render(kv.Key) == "FieldsFilter" {
+					lits = append(lits, g.Render(kv.Value))
+				}
+				return true
+			})
+			e.Strs("makeFetchReqFilter", lits, "search.Ingestor.makeFetchReq: the FieldsFilter of the request sent to a store")
+		}
 		// ---- keyword recognition of the pipe parser: case-insensitive, never a quoted token
 		if h, err := r.Load("parser/seqql_pipes.go"); err != nil {
 			e.Missing("seqql_pipes.go", err)
@@ -210,5 +237,5 @@ func main() {
 				e.Strs(fn.lean, stmts, "parser.lexer."+fn.name+": statements")
 			}
 		}
-	}, "storeapi/grpc_fetch.go", "proxy/search/ingestor.go", "parser/seqql_pipes.go", "parser/seqql.go")
+	}, "storeapi/grpc_fetch.go", "proxy/search/ingestor.go", "parser/seqql_pipes.go", "parser/seqql.go", "proxyapi/grpc_fetch.go")
 }
